@@ -123,8 +123,16 @@ PROPERTIES = {
     },
     "C11": {"rt": ["rt.arrays:c11_reduce"], "level": "other", "assumptions": S_ALL,
             "explanation": "bounded stand-in only so far: matrices up to 3x3 against brute-force solution sets"},
-    "C12": {"rt": ["rt.arrays:c12_tighten"], "level": "other", "assumptions": S_ALL,
-            "explanation": "bounded stand-in only so far: matrices up to 3x3 against brute-force solution sets"},
+    "C12": {"harness_modules": ["contracts.c12"], "rt": ["rt.arrays:c12_tighten"], "level": "other",
+            "assumptions": S_ALL + ["S2: `/` is exact real division and floor the real floor (float rounding of numpy is NOT modelled; "
+                                    "the stand-in sweeps coefficient magnitudes up to 130 with exact quotients for that)",
+                                    "variable bounds lie within the library's default 16-bit range (precondition of the property)"],
+            "explanation": "deductive, bounded in shape (1x1, 1x2, 2x1, 2x2) and unbounded in values: the real bodies of row_bounds, "
+                           "tighten_column_bounds, n_row_combinations (with column_bounds, A, b, A_max) run on arrays with symbolic "
+                           "integer coefficients, right-hand sides and bounds: row bounds contain every box point and are attained; "
+                           "tightened bounds contain every in-bounds integer solution and never widen; combination counts are the "
+                           "product over non-zero columns. bounded stand-in: matrices up to 3x3 incl. large coefficients against "
+                           "brute force, and the same polyhedron object queried repeatedly."},
     "C13": {"rt": ["rt.arrays:c13_compress"], "level": "other", "assumptions": S_ALL + ["A-rs2: py_optimized_bit_allocation_64 (compiled Rust) is not under contract"],
             "explanation": "bounded stand-in only"},
     "C14": {"rt": ["rt.config:c14_objectives"], "level": "other", "assumptions": S_ALL + ["A-rs2"],
